@@ -478,6 +478,8 @@ def run(ck, tier):
     from .c17 import r9_read_size_covers_an_adu
     ck.guard(r9_read_size_covers_an_adu, ck, cx, 'R17')
     from ..share import import_findings as _imp3
+    ck.rule('R20', 'the exception response to a request that cannot be served carries the function code that was received: IllegalFunctionRequest is built from the first PDU byte (shared with C01 R4)')
+    _imp3(ck, 'C01', 'R20', ('R4',), 'the response does not match the request it answers (wrong function code), or cannot be built at all', detail_prefixes=('illegal-function-code-source',))
     ck.rule('R19', 'the RTU frame length oracle sizes every request correctly up to the 256-byte ADU limit (shared with C03 R3)')
     _imp3(ck, 'C03', 'R19', ('R3',), 'a maximum-size request is never answered', detail_prefixes=('rtuFrameSize-shape', 'size-from-buffered-length', 'custom-size-override', 'fifo-size', 'mei-size-shape', 'base-size-shape'))
     return cx.idx
